@@ -306,6 +306,11 @@ def _stateless(ctx, R):
                 R.check(not mutable, "STATELESS", "%s.%s" % (mn, name), "module-level constant",
                         "module-level mutable object `%s` in %s: a cache of key material can hand out a blob/signature that does not belong to the key asked about" % (name, mn), mod.relpath)
         for f in mod.all_funcs:
+            for d in f.node.decorator_list:
+                dn = ast.unparse(d.func if isinstance(d, ast.Call) else d)
+                if "cache" in dn.lower() or "memo" in dn.lower():
+                    R.fail("STATELESS", "%s|@%s" % (f.qualname, dn), "%s is memoised (`@%s`): its result depends on files / keys that can change between calls - a second keygen() or a "
+                           "re-written key file gets the blob of the previous key" % (f.qualname, dn), f.loc())
             for n in walk_own(f.node):
                 if isinstance(n, (ast.Global, ast.Nonlocal)):
                     R.fail("STATELESS", "%s|global" % f.qualname, "`global` state in %s" % f.qualname, f.loc(n))
